@@ -221,14 +221,35 @@ def formulas(draw: Any, g: dict[str, Any], bound: list[str], depth: int, shared_
 
 
 @st.composite
+def path_quantifiers(draw: Any, gname: str) -> list[Any]:
+    """A quantifier over a symbol with several instances whose body reaches the bound symbol ONLY through a path
+    (<k>.<x>, <k>..<x>): the verdict of each element depends on the binding although the body's last symbol does
+    not name it."""
+    over, inner = draw(st.sampled_from({"recs": [("rec", "num"), ("rec", "name"), ("rec", "d"), ("lst", "num"), ("name", "ch")],
+                                        "expr": [("term", "num"), ("term", "d"), ("sum", "term"), ("num", "d")]}[gname]))
+    style = draw(st.sampled_from(["old", "inline"]))
+    q = draw(st.sampled_from(["forall", "exists"] if style == "old" else ["all", "any"]))
+    name = "<k0>" if style == "old" else "<k0i>"
+    op = "dot" if (inner in GRAMMARS[gname]["parents"].get(over, []) and draw(st.booleans())) else "ddot"
+    sel = [op, ["nt", name[1:-1]], inner]
+    tmpl = draw(st.sampled_from(["int($0) % 2 == 0", "int($0) > 4", "str($0) != '7'", "len(str($0)) >= 2", "'1' in str($0)",
+                                 "str($0).startswith('a')", "int($0) < 50"]))
+    return [q, name, ["nt", over], ["expr", tmpl, [sel]]]
+
+
+@st.composite
 def cases(draw: Any) -> dict[str, Any]:
     gname = draw(st.sampled_from(sorted(GRAMMARS)))
     g = GRAMMARS[gname]
+    fms = [draw(formulas(g, [], 2, False)) for _ in range(draw(st.integers(2, 5)))]
+    big = draw(st.integers(0, 2)) == 0
+    if big:
+        fms.append(draw(path_quantifiers(gname)))
     return {
         "grammar": gname,
         "tree_seed": draw(st.integers(0, 10**6)),
-        "max_nodes": draw(st.sampled_from([8, 20, 45])),
-        "formulas": [draw(formulas(g, [], 2, False)) for _ in range(draw(st.integers(2, 5)))],
+        "max_nodes": 45 if big else draw(st.sampled_from([8, 20, 45])),
+        "formulas": fms,
     }
 
 
@@ -327,7 +348,7 @@ def _with_constraint(gname: str, ctext: str) -> Any:
 
 
 def run_shard(ctx: Any) -> None:
-    n = 30 if ctx.tier == "quick" else 2500
+    n = 60 if ctx.tier == "quick" else 2500
 
     @given(cases())
     def test(case: dict[str, Any]) -> None:
